@@ -1087,9 +1087,9 @@ func (a *Analysis) ruleS2() {
 		}
 		out := reach.MinusFinite(a.Gate3.Spec)
 		if pre || !out.Empty() {
-			r.Bad("S2a", fk+"/gate-before-lookup", a.P.InstrPos(s.lk), "", "a word is looked up with a token count outside the BIP39 set (%v)", out)
+			r.Bad("S2a+S2s", fk+"/gate-before-lookup", a.P.InstrPos(s.lk), "", "a word is looked up with a token count outside the BIP39 set (%v)", out)
 		} else {
-			r.OK("S2a", fk+"/gate-before-lookup", a.P.InstrPos(s.lk), "", "lookups happen only with an accepted token count")
+			r.OK("S2a+S2s", fk+"/gate-before-lookup", a.P.InstrPos(s.lk), "", "lookups happen only with an accepted token count")
 		}
 	}
 	seenClass := map[string]bool{}
@@ -1119,7 +1119,14 @@ func (a *Analysis) ruleS2() {
 							continue
 						}
 					}
-					r.Bad(map[bool]string{true: "S2a", false: "S2e"}[ev.Kind == ekNil], key, xp, ctx.Name, "with an accepted token count this exit is taken unconditionally and returns %v", x.Vals)
+					rule := "S2a+S2s"
+					if ev.Kind != ekNil {
+						rule = "S2e"
+						if lc.Const != nil {
+							rule = "S2e+S2c"
+						}
+					}
+					r.Bad(rule, key, xp, ctx.Name, "with an accepted token count this exit is taken unconditionally and returns %v", x.Vals)
 					continue
 				}
 				bv := first.Val.(BoolV)
@@ -1128,7 +1135,7 @@ func (a *Analysis) ruleS2() {
 				case "lookupok":
 					hit := first.Taken != bv.Neg
 					if hit {
-						r.Bad("S2a", key, xp, ctx.Name, "exit taken when a token IS in the list returns %v", x.Vals)
+						r.Bad("S2a+"+map[bool]string{true: "S2s", false: "S2c"}[ev.Kind == ekNil], key, xp, ctx.Name, "exit taken when a token IS in the list returns %v", x.Vals)
 						continue
 					}
 					seenClass["miss"] = true
@@ -1140,30 +1147,30 @@ func (a *Analysis) ruleS2() {
 						}
 					}
 					if ev.Kind == ekFresh || ev.Kind == ekSentinel || ev.Kind == ekWrap || ev.NonNil {
-						r.OK("S2a", key+"/non-nil", xp, ctx.Name, "unknown token ⇒ a non-nil error")
+						r.OK("S2a+S2s", key+"/non-nil", xp, ctx.Name, "unknown token ⇒ a non-nil error")
 					}
 					switch {
 					case ev.Kind == ekNil || ev.Kind == ekUnknown && !ev.NonNil:
-						r.Bad("S2a", key, xp, ctx.Name, "a token that is not in the list yields %v: the sentence can be accepted although a word is not in the list", ev)
+						r.Bad("S2a+S2s", key, xp, ctx.Name, "a token that is not in the list yields %v: the sentence can be accepted although a word is not in the list", ev)
 					case ev.Kind != ekFresh:
 						r.Bad("S2e", key, xp, ctx.Name, "a token that is not in the list yields %v; it must be a non-nil error distinct from both sentinels", ev)
 					case !tokNamed:
 						r.Bad("S2e", key, xp, ctx.Name, "the error for an unknown token (%v) does not name that token (%v)", ev, c.B)
 					default:
 						if k, ok := c.B.(StrV); !ok || k.Kind != skTok {
-							r.Bad("S2a", key, xp, ctx.Name, "the looked-up key %v is not a token of the normalised input", c.B)
+							r.Bad("S2a+S2s+S2c", key, xp, ctx.Name, "the looked-up key %v is not a token of the normalised input", c.B)
 						} else {
 							r.OK("S2e", key, xp, ctx.Name, "unknown token ⇒ fresh error naming the token (%q)", ev.Format)
 						}
 					}
 				case "bigcmp", "intcmp":
 					if !x.AfterLoop {
-						r.Bad("S2a", key, xp, ctx.Name, "checksum comparison before all tokens were looked up")
+						r.Bad("S2a+S2s+S2c", key, xp, ctx.Name, "checksum comparison before all tokens were looked up")
 						continue
 					}
 					eq := (c.Op == token.EQL) == (first.Taken != bv.Neg)
 					if c.Op != token.EQL && c.Op != token.NEQ {
-						r.Unk("S2a", key, xp, ctx.Name, "exit controlled by %v", bv)
+						r.Unk("S2a+S2s+S2c", key, xp, ctx.Name, "exit controlled by %v", bv)
 						continue
 					}
 					if eq {
@@ -1188,30 +1195,30 @@ func (a *Analysis) ruleS2() {
 									}
 								}
 								if hit {
-									r.OK("S2a", fk+"/membership", a.P.InstrPos(c.Instr), ctx.Name, "validation goes on only on the edge where the token was found in the map")
+									r.OK("S2a+S2s", fk+"/membership", a.P.InstrPos(c.Instr), ctx.Name, "validation goes on only on the edge where the token was found in the map")
 								} else {
-									r.Bad("S2a", fk+"/membership", a.P.InstrPos(c.Instr), ctx.Name, "a token that is not in the list does not stop the validation: the looked-up index is used on a path where the word was not found (it is then 0, the first word)")
+									r.Bad("S2a+S2s", fk+"/membership", a.P.InstrPos(c.Instr), ctx.Name, "a token that is not in the list does not stop the validation: the looked-up index is used on a path where the word was not found (it is then 0, the first word)")
 								}
 							}
 						}
 						if ev.Kind == ekNil {
-							r.OK("S2a", key, xp, ctx.Name, "checksums equal ⇒ nil")
+							r.OK("S2a+S2s+S2c", key, xp, ctx.Name, "checksums equal ⇒ nil")
 						} else {
-							r.Bad("S2a", key, xp, ctx.Name, "a sentence with a correct checksum yields %v", ev)
+							r.Bad("S2a+S2c", key, xp, ctx.Name, "a sentence with a correct checksum yields %v", ev)
 						}
 					} else {
 						seenClass["checksum"] = true
 						if (ev.Kind == ekSentinel || ev.Kind == ekWrap) && ev.G == csSent && csSent != nil {
 							r.OK("S2e", key, xp, ctx.Name, "checksums differ ⇒ %v", ev)
 						} else {
-							r.Bad(map[bool]string{true: "S2a", false: "S2e"}[ev.Kind == ekNil], key, xp, ctx.Name, "a wrong checksum yields %v, which does not match ErrChecksumIncorrect", ev)
+							r.Bad(map[bool]string{true: "S2a+S2s", false: "S2e"}[ev.Kind == ekNil], key, xp, ctx.Name, "a wrong checksum yields %v, which does not match ErrChecksumIncorrect", ev)
 						}
 					}
 				default:
 					if ev.Kind == ekNil {
-						r.Bad("S2a", key, xp, ctx.Name, "return nil under %v: acceptance must be decided by the checksum comparison alone", bv)
+						r.Bad("S2a+S2s", key, xp, ctx.Name, "return nil under %v: acceptance must be decided by the checksum comparison alone", bv)
 					} else {
-						r.Unk("S2a", key, xp, ctx.Name, "exit controlled by %v is none of count-reject, unknown-token, checksum-reject, accept", bv)
+						r.Unk("S2a+S2c", key, xp, ctx.Name, "exit controlled by %v is none of count-reject, unknown-token, checksum-reject, accept", bv)
 					}
 				}
 			}
@@ -1219,7 +1226,7 @@ func (a *Analysis) ruleS2() {
 	}
 	for _, cl := range []string{"miss", "checksum", "accept"} {
 		if !seenClass[cl] {
-			r.Bad(map[bool]string{true: "S2a", false: "S2e"}[cl == "accept"], fk+"/class/"+cl, a.P.Pos(fn.Pos()), "", "CheckMnemonic has no %s exit", cl)
+			r.Bad(map[bool]string{true: "S2a+S2c", false: "S2e"}[cl == "accept"], fk+"/class/"+cl, a.P.Pos(fn.Pos()), "", "CheckMnemonic has no %s exit", cl)
 		}
 	}
 	r.Counts["S2.exits"] = nExit
@@ -1421,6 +1428,9 @@ func (a *Analysis) finishE1() {
 			continue
 		}
 		for g := range e.Relied {
+			relied[cls][name(g)] = true
+		}
+		for g := range e.Touched {
 			relied[cls][name(g)] = true
 		}
 	}
